@@ -101,6 +101,14 @@ def run(prog, upto=None, hooks=None) -> Result:
         e = ev["e"]
         if hooks and "before" in hooks:
             hooks["before"](idx, ev, res)
+        if prog.get("churn") and e in ("cond", "cfg", "loop", "nested", "func", "if", "block", "successor", "entry", "load", "const"):
+            # scratch nodes added under the root and deleted again: no trace but the free indices, which the nodes
+            # created next reuse most recent first (child order and index order then differ)
+            # (the smallest is freed last: the container created next takes it, its children the others, in
+            # descending order - an index is only reused for a child above its parent)
+            scratch = [res.hugr.add_node(ops.Noop(tys.Bool), res.hugr.root) for _ in range(3 + idx % 3)]
+            for sn in scratch[1:] + scratch[:1]:
+                res.hugr.delete_node(sn)
         if e == "op":
             b = B[ev["r"]]
             op = partial_op(ev["op"]) if ev.get("partial") else mk_op(ev["op"])
